@@ -239,6 +239,71 @@ def output_validated(F, b):
 ORDER_OPS = ('Lt', 'Le', 'Gt', 'Ge')
 
 
+def check_nondegenerate_support(ctx, F):
+    """A quantizer over a support `a..=b` is only constructed for a < b: a one-symbol support would give that symbol the whole
+    interval [0, 2^PRECISION), i.e. probability one, which the models and coders exclude ("no symbol has probability one").
+    Rule: every returning path of the public constructors that take a `RangeInclusive` support carries a *strict* comparison
+    start < end of that argument.  `!support.is_empty()` only gives start <= end."""
+    n = 0
+    for b in F.bodies:
+        if b.promoted is not None or is_test(b) or b.dk != 'AssocFn' or b.vis != 'pub' or not (b.self_adt or '').startswith('stream::model::quantize::') or 'RangeInclusive<' not in (b.raw.get('sig') or ''):
+            continue
+        if 'Self' not in (b.raw.get('sig') or '').split('->')[-1] and (b.self_adt.split('::')[-1] not in (b.raw.get('sig') or '').split('->')[-1]):
+            continue
+        ev, paths = rules.evaluate(b)
+        if not paths:
+            continue
+        n += 1
+        ctx.touch(b)
+        key = 'R6/non-degenerate-support/' + b.defpath
+        role = 'the support has at least two symbols'
+        is_end = lambda x: isinstance(x, tuple) and x and sym.contains(x, lambda y: isinstance(y, tuple) and y and y[0] == 'call' and str(y[1]).endswith('RangeInclusive::<Idx>::end'))
+        is_start = lambda x: isinstance(x, tuple) and x and sym.contains(x, lambda y: isinstance(y, tuple) and y and y[0] == 'call' and str(y[1]).endswith('RangeInclusive::<Idx>::start'))
+        bad = None
+        n_ret = 0
+        for r in paths:
+            if r.end != 'return':
+                continue
+            n_ret += 1
+            strict = weak = False
+            for t, v, _ in r.preds:
+                if isinstance(v, tuple):
+                    continue
+                tt, vv = t, bool(v)
+                while isinstance(tt, tuple) and tt and tt[0] == 'not':
+                    tt, vv = tt[1], not vv
+                if isinstance(tt, tuple) and tt and tt[0] == 'bin' and tt[1].split('.')[0] in ('Lt', 'Le', 'Gt', 'Ge'):
+                    op = tt[1].split('.')[0]
+                    a, c = tt[2], tt[3]
+                    if op in ('Gt', 'Ge'):
+                        a, c = c, a
+                        op = {'Gt': 'Lt', 'Ge': 'Le'}[op]
+                    # now  a op c
+                    if is_start(a) and is_end(c) and not is_end(a) and not is_start(c):
+                        if (op == 'Lt' and vv):
+                            strict = True
+                        elif op == 'Le' and vv:
+                            weak = True
+                    if is_end(a) and is_start(c) and not is_start(a) and not is_end(c):
+                        if op == 'Le' and not vv:      # !(end <= start)
+                            strict = True
+                        elif op == 'Lt' and not vv:    # !(end < start)  => start <= end
+                            weak = True
+                if isinstance(tt, tuple) and tt and tt[0] == 'call' and str(tt[1]).endswith('RangeInclusive::<Idx>::is_empty') and not vv:
+                    weak = True
+            if not strict:
+                bad = ('a returning path only knows start <= end (%s): `x..=x` is accepted, and the single symbol of such a support receives the whole probability mass' % ('is_empty() is false' if weak else 'no comparison of the two ends at all')) if weak \
+                    else 'a returning path carries no comparison of the two ends of the support: a one-symbol (or reversed) support is accepted'
+        if n_ret == 0:
+            continue
+        if bad:
+            ctx.bad('R6', role, b.defpath, bad, key=key, loc=rules.loc(b))
+        else:
+            ctx.ok('R6', role, b.defpath, 'every returning path carries start < end', key=key)
+    if n == 0:
+        ctx.unresolved('R6', 'the support has at least two symbols', 'stream::model::quantize', 'no public constructor taking a RangeInclusive support found', key='R6/floor/non-degenerate-support')
+
+
 def check_duplicate_symbols(ctx, F):
     """Constructors that build a symbol -> interval table must reject a repeated symbol (otherwise the later entry overwrites
     the earlier one and the remaining intervals no longer tile [0, 2^PRECISION)).  Rule: every insertion into such a map
@@ -362,7 +427,22 @@ def _next_is_some(t, v):
     return False
 
 
+def _float_class_tests(F, b):
+    """names of the float classification methods (is_normal, is_finite, ...) that decide a rejecting exit of b."""
+    out = set()
+    ev, paths = rules.evaluate(b)
+    for r in paths or []:
+        for t, v, _ in r.preds:
+            for x in sym.subterms(t):
+                if isinstance(x, tuple) and x and x[0] == 'call' and isinstance(x[1], str):
+                    nm = x[1].split('::')[-1]
+                    if nm in ('is_normal', 'is_finite', 'is_nan', 'is_infinite', 'is_sign_positive', 'is_sign_negative', 'is_subnormal'):
+                        out.add(nm)
+    return out
+
+
 def check_sibling_agreement(ctx, F):
+    _norm_tests = {}
     ingesters = []
     for b in F.bodies:
         if b.promoted is not None or is_test(b) or b.dk not in ('Fn', 'AssocFn'):
@@ -390,9 +470,25 @@ def check_sibling_agreement(ctx, F):
         else:
             ctx.bad('R4', role, b.defpath, 'no element is ever compared with zero and the resulting cdf is not validated: a negative weight (e.g. [3.0, -2.0, 1.0], positive sum) yields a non-monotone cdf', key=key, loc=rules.loc(b))
         check_supplied_normalization(ctx, F, b, role_name)
+        _norm_tests[b.defpath] = _float_class_tests(F, b)
         k2 = 'R4/length-guard/' + (('validator:' + role_name) if role_name else b.defpath)
         (ctx.ok if has_len_guard(F, b) else ctx.bad)('R4', 'tables with fewer than two entries are rejected', b.defpath,
                                                      'len < 2 guard present' if has_len_guard(F, b) else 'no `len < 2` rejection found', key=k2)
+    # all ingesters classify the normalization with the same float tests; `is_normal` (finite, non-zero, not subnormal) is what
+    # keeps  scale = free_weight / normalization  finite
+    if _norm_tests:
+        ref = {}
+        for dp, ts in _norm_tests.items():
+            ref[frozenset(ts)] = ref.get(frozenset(ts), 0) + 1
+        for dp, ts in sorted(_norm_tests.items()):
+            k3 = 'R4/normalization-class/' + (('validator:' + vdefs(F).get(dp)) if vdefs(F).get(dp) else dp)
+            role3 = 'the normalization is required to be a normal positive float'
+            if 'is_normal' in ts:
+                ctx.ok('R4', role3, dp, 'tests: %s' % sorted(ts), key=k3)
+            elif ts & {'is_finite', 'is_nan', 'is_infinite'}:
+                ctx.bad('R4', role3, dp, 'the normalization is only tested with %s (siblings require is_normal): zero and subnormal totals pass, `free_weight / normalization` overflows to infinity and the constructor hands out a model whose every lookup panics or is garbage' % sorted(ts), key=k3)
+            else:
+                ctx.unresolved('R4', role3, dp, 'no float classification test of the normalization recognised (%s)' % sorted(ts), key=k3)
     # (symbols, probabilities) constructors: no silent truncation through zip
     n = 0
     for b in F.bodies:
@@ -716,6 +812,7 @@ def run(ctx):
     check_constructor_narrowing(ctx, F)
     check_inferred_probability(ctx, F)
     check_duplicate_symbols(ctx, F)
+    check_nondegenerate_support(ctx, F)
     if ctx.tier == 'thorough':
         from vlib import witness
         witness.run(ctx, 'C19')
